@@ -161,6 +161,22 @@ the full tunnel id (all of it, not 16 bytes, whatever bytes it contains) and the
 def holdsTm (tid node : Bytes) (o : Option (Bytes × Bytes)) : Bool :=
   node.contains bar || o == some (tid, node)
 
+/-- What the listener does with a first frame of type `ty`, header id string `hid`, TargetReady message
+`(tid, node)`, when the manager's bridge is for `bridge`: forward iff it is a TargetReady for that bridge
+(the full id of the message, or the header id when the message carries none). -/
+def lsForwards (tid node bridge : Bytes) (ty : Nat) (hid : Bytes) : Bool :=
+  ty == crossnode.FrameTypeTargetReady && !node.contains bar &&
+  (if tid.isEmpty then tunnelIDToString (tunnelIDFromString hid) else tid) == bridge
+
+/-- **The listener on an observation**: a TargetReady connection for the bridge's tunnel forwards EXACTLY
+the bytes that follow the first frame — from the first byte on, also when they arrive in the same
+segment as the frame — to the source side, and the answer back; any other first frame forwards nothing.
+`o = (forwarded?, bytes the source side got, bytes the target side got)`. -/
+def holdsLs (tid node bridge : Bytes) (ty : Nat) (hid pay back : Bytes) (o : Bool × Bytes × Bytes) : Bool :=
+  if node.contains bar then true      -- outside the hypothesis of the message codec
+  else if lsForwards tid node bridge ty hid then o.1 && o.2.1 == pay && o.2.2 == back
+  else !o.1 && o.2.1.isEmpty
+
 /-! ### Decoder -/
 
 /-- The reason the decoder must give for stopping on the remaining bytes `rest`. -/
